@@ -172,6 +172,9 @@ impl<K: SimK, V: SimV, const N: usize, const M: usize> World<K, V, N, M> {
 
     fn operands(op: &Op) -> (bool, bool, bool, bool) {
         // (map A, map B, set A, set B) touched by the operation
+        if matches!(op, Op::Transfer { .. }) {
+            return (true, true, true, true);
+        }
         let s = format!("{op:?}");
         let a = s.contains("t: A") || s.contains("a: A") || s.contains("b: A");
         let b = s.contains("t: B") || s.contains("a: B") || s.contains("b: B");
